@@ -446,6 +446,52 @@ Proof.
   destruct (appends_history c2 rs st Hok Hb) as [-> _]. reflexivity.
 Qed.
 
+Lemma open_modes_aux : forall content o,
+    fa_open true (Some content) o = Some (mkF content [] o).
+Proof. reflexivity. Qed.
+
+(* ---------------- several O_APPEND writers on one file ---------------- *)
+
+Definition hop_bytes (op : hop) : bytes :=
+  match op with
+  | HAppend _ cs => rec_bytes cs
+  | HExternal d => d
+  | HBuild _ => []
+  end.
+
+Lemma hop_step_spec : forall c m op,
+    orc_ok (morc m) = true -> (forall h, mbufs m h = []) ->
+    let m' := hop_step c m op in
+    mdisk m' = mdisk m ++ hop_bytes op /\ orc_ok (morc m') = true /\ (forall h, mbufs m' h = []).
+Proof.
+  intros c m [h cs|d|h] Hok Hb; cbn [hop_step hop_bytes].
+  - destruct (append_ok c (mkF (mdisk m) (mbufs m h) (morc m)) cs Hok) as (s & Ha & Hok').
+    rewrite Ha. cbn [res_state mdisk mbufs morc].
+    apply append_flushes_whole_record in Ha. cbn [disk buf] in Ha. rewrite Hb in Ha.
+    destruct Ha as [Hd Hbs]. repeat split; auto.
+    intro j. unfold set_buf. destruct (Nat.eqb j h); auto.
+  - cbn [mdisk mbufs morc]. auto.
+  - unfold bw_flush.
+    destruct (flush_buf_ok (mkF (mdisk m) (mbufs m h) (morc m)) Hok) as (o' & Hf & Ho').
+    rewrite Hf. cbn [snd disk buf orc]. rewrite open_modes_aux. cbn [mdisk mbufs morc disk buf orc].
+    rewrite Hb, !app_nil_r. repeat split; auto.
+    intro j. unfold set_buf. destruct (Nat.eqb j h); auto.
+Qed.
+
+(* the file is always everything written so far, in call order, whichever
+   handle (or external writer) wrote it *)
+Lemma shared_file_history : forall c ops m,
+    orc_ok (morc m) = true -> (forall h, mbufs m h = []) ->
+    mdisk (hops c m ops) = mdisk m ++ concat (map hop_bytes ops)
+    /\ (forall h, mbufs (hops c m ops) h = []).
+Proof.
+  induction ops as [|op ops IH]; intros m Hok Hb; unfold hops; cbn [fold_left map concat].
+  - rewrite app_nil_r. auto.
+  - destruct (hop_step_spec c m op Hok Hb) as (Hd & Hok' & Hb').
+    destruct (IH _ Hok' Hb') as [Hd2 Hb2]. unfold hops in Hd2, Hb2.
+    rewrite Hd2, Hd, <- app_assoc. auto.
+Qed.
+
 (* ---------------- open modes ---------------- *)
 
 Lemma open_modes : forall a pre o,
